@@ -208,6 +208,12 @@ func (r *RowCache) rowsByModels(models []model.Model, useClientIndexes bool) (ma
 				// first client index
 				break
 			}
+			// a condition built from a model only uses an index for which
+			// the model holds a value in every column, unset fields do not
+			// select the rows that have the default value
+			if useClientIndexes && !r.indexUsable(info, indexSpec.columns) {
+				continue
+			}
 			val, err := valueFromIndex(info, indexSpec.columns)
 			if err != nil {
 				continue
@@ -229,6 +235,30 @@ func (r *RowCache) rowsByModels(models []model.Model, useClientIndexes bool) (ma
 		return nil, nil
 	}
 	return results, nil
+}
+
+// indexUsable returns whether the model has a value other than the default in
+// every column of the index (for a map key: whether the key is present)
+func (r *RowCache) indexUsable(info *mapper.Info, columnKeys []model.ColumnKey) bool {
+	table := r.dbModel.Schema.Table(r.name)
+	for _, columnKey := range columnKeys {
+		field, err := info.FieldByColumn(columnKey.Column)
+		if err != nil || !reflect.ValueOf(field).IsValid() {
+			return false
+		}
+		if columnKey.Key != nil {
+			m := reflect.ValueOf(field)
+			if m.Kind() != reflect.Map || !m.MapIndex(reflect.ValueOf(columnKey.Key)).IsValid() {
+				return false
+			}
+			continue
+		}
+		columnSchema := table.Column(columnKey.Column)
+		if columnSchema == nil || ovsdb.IsDefaultValue(columnSchema, field) {
+			return false
+		}
+	}
+	return true
 }
 
 // RowByModel searches the cache by UUID and schema indexes. UUID search is
